@@ -796,4 +796,75 @@ Section EndToEnd.
     destruct (canon (RTuple l)), (canon (RTuple l')); try contradiction; try exact I.
     apply check_order_independent. exact C.
   Qed.
+
+  (* every value of every alternative, written as an alternative of its own (what the harness's differential
+     oracle builds: one grader per single alternative) *)
+  Definition raw_singles (a : raw_answer TE) : list (raw_answer TE) :=
+    match a with
+    | RBare re => map (fun e => RBare (ROne e)) (expects_of re)
+    | RDict re c m o => map (fun e => RDict (ROne e) c m o) (expects_of re)
+    end.
+
+  Lemma raw_singles_fwd : forall a a' rs, canon_answer a = Some a' -> In rs (raw_singles a) ->
+    exists s, In s (singles_of a') /\ canon (RTuple [rs]) = Some (alone s).
+  Proof.
+    intros [re | re c m o] a' rs H Hin; simpl in H, Hin.
+    - injection H as <-. apply in_map_iff in Hin. destruct Hin as [e [<- He]].
+      exists (mkSingle e 1 [] OkTrue). split; [|reflexivity].
+      unfold singles_of. simpl. apply in_map_iff. exists e. split; [reflexivity | exact He].
+    - set (c' := match c with Some q => q | None => 1 end) in *.
+      destruct (Qle_bool 0 c' && Qle_bool c' 1) eqn:R; [|discriminate]. injection H as <-.
+      apply in_map_iff in Hin. destruct Hin as [e [<- He]].
+      exists (mkSingle e c' (match m with Some s => s | None => [] end) (canon_ok c' o)). split.
+      + unfold singles_of. simpl. apply in_map_iff. exists e. split; [reflexivity | exact He].
+      + simpl. fold c'. rewrite R. reflexivity.
+  Qed.
+
+  Lemma raw_singles_bwd : forall a a' s, canon_answer a = Some a' -> In s (singles_of a') ->
+    exists rs, In rs (raw_singles a) /\ canon (RTuple [rs]) = Some (alone s).
+  Proof.
+    intros [re | re c m o] a' s H Hin; simpl in H.
+    - injection H as <-. unfold singles_of in Hin. simpl in Hin. apply in_map_iff in Hin. destruct Hin as [e [<- He]].
+      exists (RBare (ROne e)). split; [|reflexivity]. simpl. apply in_map_iff. exists e. split; [reflexivity | exact He].
+    - set (c' := match c with Some q => q | None => 1 end) in *.
+      destruct (Qle_bool 0 c' && Qle_bool c' 1) eqn:R; [|discriminate]. injection H as <-.
+      unfold singles_of in Hin. simpl in Hin. apply in_map_iff in Hin. destruct Hin as [e [<- He]].
+      exists (RDict (ROne e) c m o). split.
+      + simpl. apply in_map_iff. exists e. split; [reflexivity | exact He].
+      + simpl. fold c'. rewrite R. reflexivity.
+  Qed.
+
+  Lemma in_flatten : forall (l : list (answer TE)) s, In s (flatten l) <-> exists a, In a l /\ In s (singles_of a).
+  Proof. intros l s. unfold flatten. apply in_flat_map. Qed.
+
+  Theorem grade_raw_is_max_of_single_graders : forall wm (l : list (raw_answer TE)) x r,
+    grade_raw cr wm (RTuple l) x = Out (Ret r) ->
+    (forall a rs, In a l -> In rs (raw_singles a) ->
+       exists r', grade_raw cr [] (RTuple [rs]) x = Out (Ret r') /\ e_grade r' <= e_grade r) /\
+    (exists a rs r', In a l /\ In rs (raw_singles a) /\ grade_raw cr [] (RTuple [rs]) x = Out (Ret r') /\
+       e_grade r' = e_grade r /\
+       (forall b rs' r'', In b l -> In rs' (raw_singles b) -> grade_raw cr [] (RTuple [rs']) x = Out (Ret r'') ->
+          e_grade r'' == e_grade r -> (length (e_msg r'') <= length (e_msg r'))%nat) /\
+       e_msg r = if is_empty (e_msg r') && Qeq_bool (e_grade r') 0 then wm else e_msg r').
+  Proof.
+    intros wm l x r H. unfold grade_raw in H.
+    destruct (canon (RTuple l)) as [l'|] eqn:C; [|discriminate]. injection H as H.
+    simpl in C. pose proof (canon_list_some TE _ _ C) as F2.
+    destruct (check_is_max_of_single_graders TE TI TX cr wm l' x r H) as [Hall [s0 [r0 [Hs0 [Hc0 [Hg0 [Hlen Hmsg]]]]]]].
+    split.
+    - intros a rs Ha Hrs. destruct (Forall2_in_l _ _ _ _ _ _ F2 Ha) as [a' [Ha' Hca]].
+      destruct (raw_singles_fwd _ _ _ Hca Hrs) as [s [Hs Hcs]].
+      destruct (Hall s) as [q [Hq Hle]]; [apply in_flatten; exists a'; split; assumption|].
+      exists q. unfold grade_raw. rewrite Hcs, Hq. split; [reflexivity | exact Hle].
+    - apply in_flatten in Hs0. destruct Hs0 as [a' [Ha' Hs0]].
+      destruct (Forall2_in_r _ _ _ _ _ _ F2 Ha') as [a [Ha Hca]].
+      destruct (raw_singles_bwd _ _ _ Hca Hs0) as [rs [Hrs Hcs]].
+      exists a, rs, r0. split; [exact Ha|]. split; [exact Hrs|]. split; [unfold grade_raw; rewrite Hcs, Hc0; reflexivity|].
+      split; [exact Hg0|]. split; [|exact Hmsg].
+      intros b rs' r'' Hb Hrs' Hgr Heq.
+      destruct (Forall2_in_l _ _ _ _ _ _ F2 Hb) as [b' [Hb' Hcb]].
+      destruct (raw_singles_fwd _ _ _ Hcb Hrs') as [s' [Hs' Hcs']].
+      unfold grade_raw in Hgr. rewrite Hcs' in Hgr. injection Hgr as Hgr.
+      eapply Hlen; [apply in_flatten; exists b'; split; eassumption | exact Hgr | exact Heq].
+  Qed.
 End EndToEnd.
